@@ -10,9 +10,15 @@ type PropSpec struct {
 	ID        string
 	Title     string
 	Groups    []Group
-	Assume    []string // property-level assumptions reported in evidence
-	Bounded   []string // bounded stand-ins (reported separately, never counted as discharged)
+	Assume    []string      // property-level assumptions reported in evidence
+	Bounded   []string      // bounded stand-ins (reported separately, never counted as discharged)
+	Tests     []BoundedTest // executed bounded stand-ins
 	DesignRef string
+}
+
+// BoundedTest is an exhaustive execution over a stated finite domain, run in-package through go test -overlay.
+type BoundedTest struct {
+	Name, PkgDir, File, Run, Bound string
 }
 
 // Group selects functions by key pattern and the obligation classes that count for the property.
@@ -183,6 +189,42 @@ func init() {
 			"MECHANISM LEVEL ONLY: sockets, the two loops per connection, handshake sequencing, concurrent senders and an independent peer are outside what a per-call contract states; go statements in the constructors are ignored (the goroutines they start are not modelled), channels are opaque",
 			"ASSUMED about frame codecs used through the frame.Codec / frame.RawCodec interfaces: DecodeFrame / DecodeHeader return non-nil results on success; zerolog calls have no effect; context.WithCancel returns non-nil values",
 			"the server-side read path (readFrame adopting STARTUP's compression, server addMultiSegmentPayload) is not under proof",
+		}})
+}
+
+var lemmaClasses = []string{"post", "pre", "cover", "frame", "inv-init", "inv-step", "unwind"}
+
+func init() {
+	vb := BoundedTest{Name: "varint-minimal-twos-complement", PkgDir: "datacodec", File: "bounded/varint_bounded_test.go", Run: "TestGovcBoundedVarint",
+		Bound: "writeBigInt/readBigInt against an independent arbitrary-precision reference for every integer in [-70000, 70000] and +-2^k, +-2^k+-1 for k <= 300 (141807 cases)"}
+	reg(&PropSpec{ID: "C12", Title: "CQL values are serialized exactly as the specification's formats prescribe (scalar types)", DesignRef: "DESIGN.md §4 C12",
+		Groups: []Group{
+			{Funcs: `^datacodec\.(write|read)(Int64|Int32|Int16|Int8|Bool|Float32|Float64)$`, OnlyCt: true, Classes: append([]string{"index", "alloc", "nil"}, lemmaClasses...)},
+			{Funcs: `^datacodec\.lemmaVarintCanonical$`, OnlyCt: true, Classes: lemmaClasses},
+		},
+		Tests:   []BoundedTest{vb},
+		Bounded: []string{"varint (minimal two's complement of arbitrary-precision integers): the byte-level contracts of writeBigInt/readBigInt are ASSUMED by the proof and checked only by the bounded execution listed under bounded_executions"},
+		Assume: []string{
+			"NOT covered: decimal, duration, date offset, inet, uuid byte formats and the collection/tuple/UDT framing (their contracts are not written); vints are covered for length agreement in C03 only",
+		}})
+	reg(&PropSpec{ID: "C11", Title: "CQL value codecs round-trip every value (scalar numeric and boolean codecs)", DesignRef: "DESIGN.md §4 C11",
+		Groups: []Group{
+			{Funcs: `^datacodec\.lemma(Bigint|Int|Smallint|Tinyint|Float|Double|Boolean|Varint)RoundTrip$`, OnlyCt: true, Classes: lemmaClasses},
+		},
+		Tests:   []BoundedTest{vb},
+		Bounded: []string{"the varint round trip rests on the assumed contracts of writeBigInt/readBigInt (bounded execution only)"},
+		Assume: []string{
+			"covered: bigint/counter, int, smallint, tinyint (each for all ten Go integer representations, value and destination of the same type), float, double (float32 and float64, NaN excluded), boolean (bool and all integer representations), varint (*big.Int, values modelled as 256-bit integers)",
+			"NOT covered: lists, sets, maps, tuples and UDTs as Go values (they reach user data only through package reflect, outside the verifier's subset); decimal, duration, date, time, timestamp, uuid, inet, blob and varchar codecs; mixed source/destination representations; the preferred Go type of untyped destinations",
+		}})
+	reg(&PropSpec{ID: "C14", Title: "NULL is preserved and distinguishable in CQL value codecs (scalar numeric and boolean codecs)", DesignRef: "DESIGN.md §4 C14",
+		Groups: []Group{
+			{Funcs: `^datacodec\.lemma(Bigint|Int|Smallint|Tinyint|Float|Double|Boolean)RoundTrip$`, OnlyCt: true, Classes: lemmaClasses},
+			{Funcs: `^datacodec\.read(Int64|Int32|Int16|Int8|Bool|Float32|Float64)$`, OnlyCt: true, Classes: lemmaClasses},
+		},
+		Assume: []string{
+			"covered: encoding an untyped nil gives a NULL that decodes with wasNull set, no error, and the destination zeroed, for the integer, float and boolean codecs and every integer/float destination; zero-length input is NULL for every fixed-width reader",
+			"NOT covered: typed nil pointers/slices/maps as sources, NULL elements inside collections/tuples/UDTs and their refusal in protocol v2 (reflection), the remaining scalar codecs",
 		}})
 }
 
